@@ -72,8 +72,9 @@ def run(ctx):
                       "which carry p_index_latency)", f.qname, "sink edge unconditional")
         sink = U(c.args[1])
         sdef = C.assigns_to(f.node, sink)
-        ctx.check(bool(sdef) and isinstance(sdef[0].value, ast.Constant) and isinstance(sdef[0].value.value, str), "R3",
-                  "the sink is a node id no kernel line can have", f.where(), "sink id is %s" % (U(sdef[0].value) if sdef else None),
+        sval = c.args[1] if isinstance(c.args[1], ast.Constant) else (sdef[0].value if sdef else None)
+        ctx.judge(isinstance(sval, ast.Constant) and isinstance(sval.value, str), sval is not None, "R3",
+                  "the sink is a node id no kernel line can have", f.where(), "sink id is %s" % (U(sval) if sval is not None else None),
                   f.qname, "sink id")
         wv = [k.value for k in c.keywords if k.arg == key]
         good = False
@@ -87,6 +88,9 @@ def run(ctx):
                 cond = [(t, p) for t, p in facts if "has_node" in t]
                 if cond:
                     vals[cond[0][1]] = (cond[0][0], U(d.value))
+                elif isinstance(d.value, ast.IfExp) and "has_node" in U(d.value.test):
+                    vals[True] = (U(d.value.test), U(d.value.body))
+                    vals[False] = (U(d.value.test), U(d.value.orelse))
             if set(vals) == {True, False}:
                 good = (vals[True][0] == "%s.has_node(%s.line_number + 0.1)" % (g, iv) and vals[True][1] == "%s.latency_wo_load" % iv
                         and vals[False][1] == "%s.latency" % iv)
@@ -130,6 +134,9 @@ def run(ctx):
                       f.qname, "reset")
             continue
         in_pair = bool(pair_loops) and C.in_subtree(n, pair_loops[0])
+        if not in_pair and not (".latency" in val and "edges" not in val):
+            ctx.unknown("R3", U(n), f.where(n), "latency_cp is assigned outside the loop over consecutive path nodes from a value the rule cannot trace")
+            continue
         if not in_pair:
             ctx.node_bad("R3", f, n, "`%s` reports a term that is not an edge weight of the searched path: the printed total "
                          "and the maximised quantity differ" % U(n))
@@ -155,21 +162,37 @@ def run(ctx):
     ctx.rule("R2", "load-node ids line + 0.1 and int() normalisation of every node-id -> line mapping")
     frac = [n for n in ast.walk(cd.node) if isinstance(n, ast.BinOp) and isinstance(n.op, ast.Add) and C.const_num(n.right) is not None
             and isinstance(C.const_num(n.right), float)]
-    ctx.check(len(frac) >= 3 and {C.const_num(n.right) for n in frac} == {0.1} and all(U(n.left).endswith(".line_number") for n in frac),
+    ctx.check(len(frac) >= 2 and {C.const_num(n.right) for n in frac} == {0.1} and all(U(n.left).endswith(".line_number") for n in frac),
               "R2", "load node id = line_number + 0.1 (one form)", cd.where(), "load-node ids are built as %s" % sorted({U(n) for n in frac}),
               cd.qname, "load node id")
     lookups = [c for c in C.calls_to(f.node, "_get_node_by_lineno")]
+    fl = C.flow_of(f)
+    path_vars = {path} | {U(t) for l2 in ast.walk(f.node) if isinstance(l2, ast.For) and path in U(l2.iter)
+                          for t in (l2.target.elts if isinstance(l2.target, ast.Tuple) else [l2.target])}
     for c in lookups:
-        a = c.args[0]
+        a = fl.subst(c.args[0])
         ok = isinstance(a, ast.Call) and isinstance(a.func, ast.Name) and a.func.id == "int"
-        ctx.check(ok, "R2", "node id is normalised with int(): %s" % U(c), f.where(c),
+        # a violation only when the argument is recognisably a node id of the path; anything else is not understood
+        direct = any(isinstance(x, ast.Name) and x.id in path_vars for x in ast.walk(a))
+        ctx.judge(ok, direct, "R2", "node id is normalised with int(): %s" % U(c), f.where(c),
                   "a node id (possibly line + 0.1) is used as a line number without int(): %s" % U(c), f.qname, U(c))
     ctx.floor("R2", "node-id look-ups in get_critical_path", len(lookups), 1)
     # ------------------------------------------------------------------ R5 returned lines
     ctx.rule("R5", "returned lines = kernel lines on the path")
     rets = [r for r in ast.walk(f.node) if isinstance(r, ast.Return) and r.value is not None]
-    ok = len(rets) == 1 and (pm.match("[M_x for M_x in self.kernel if M_x.line_number in %s[:-1]]" % path, rets[0].value) is not None
-                             or pm.match("[M_x for M_x in self.kernel if M_x.line_number in %s]" % path, rets[0].value) is not None)
+    rv = rets[0].value if len(rets) == 1 else None
+    if rv is not None:
+        # an alias of the path (cp_nodes = set(longest_path[:-1])) is resolved one step
+        txt = U(rv)
+        for nm in {x.id for x in ast.walk(rv) if isinstance(x, ast.Name)} - {path, "self"}:
+            ds = [a for a in C.assigns_to(f.node, nm) if isinstance(a, ast.Assign)]
+            if len(ds) == 1 and path in U(ds[0].value):
+                txt = txt.replace(" in %s]" % nm, " in %s]" % U(ds[0].value))
+        rv = ast.parse(txt, mode="eval").body
+    ok = rv is not None and any(pm.match(pat % path, rv) is not None for pat in (
+        "[M_x for M_x in self.kernel if M_x.line_number in %s[:-1]]", "[M_x for M_x in self.kernel if M_x.line_number in %s]",
+        "[M_x for M_x in self.kernel if M_x.line_number in set(%s[:-1])]", "[M_x for M_x in self.kernel if M_x.line_number in set(%s)]",
+        "[M_x for M_x in self.kernel if M_x.line_number in frozenset(%s[:-1])]"))
     ctx.check(ok, "R5", "return [line for line in kernel if line.line_number in path]", f.where(rets[0]) if rets else f.where(),
               "get_critical_path returns %s" % ([U(r.value)[:100] for r in rets]), f.qname, "returned lines")
     # ------------------------------------------------------------------ R4 totals
@@ -183,9 +206,20 @@ def run(ctx):
           if isinstance(k, ast.Constant) and k.value == "CriticalPath" and dsrc and pm.match(
               "sum([M_x.latency_cp for M_x in %s])" % U(dsrc[0][1]["M_c"]), v) is not None]
     cvc = C.calls_to(fa.node, "combined_view")
-    ok = bool(t) and bool(dd) and bool(cvc) and U(cvc[0].args[1]) == "%s.get_critical_path()" % fa.params()[2]
-    ctx.check(ok, "R4", "both totals are sum(latency_cp) over get_critical_path()", cv.where(),
-              "text and dict compute the CP total differently", "Frontend", "cp total agreement")
+    # either side may hold the sum in a local or use it in place
+    t_any = [n for n in ast.walk(cv.node) if pm.match("sum(M_x.M_a for M_x in %s)" % cv.params()[2], n) is not None]
+    d_any = [v for n in ast.walk(fd.node) if isinstance(n, ast.Dict) for k, v in zip(n.keys, n.values)
+             if isinstance(k, ast.Constant) and k.value == "CriticalPath"]
+    t_attr = {pm.match("sum(M_x.M_a for M_x in %s)" % cv.params()[2], n)["M_a"] for n in t_any}
+    d_sub = C.flow_of(fd).subst(d_any[0]) if d_any else None
+    d_m = pm.match("sum(M_x.M_a for M_x in %s.get_critical_path())" % fd.params()[2], d_sub) if d_sub is not None else None
+    ok = t_attr == {"latency_cp"} and d_m is not None and d_m["M_a"] == "latency_cp" and bool(cvc) \
+        and U(cvc[0].args[1]) == "%s.get_critical_path()" % fa.params()[2]
+    ctx.judge(ok, bool(t_any) and d_m is not None and bool(cvc), "R4", "both totals are sum(latency_cp) over get_critical_path()", cv.where(),
+              "text and dict compute the CP total differently (text sums .%s, dict %s)" % (sorted(t_attr), U(d_sub) if d_sub is not None else None),
+              "Frontend", "cp total agreement")
     cell = ctx.func("Frontend._get_lcd_cp_ports")
-    ctx.check(bool(pm.find("M_v = float(self._get_node_by_lineno(M_l, M_c).latency_cp)", cell.node)), "R4",
+    cpat = pm.find("M_v = float(self._get_node_by_lineno(M_l, M_c).M_a)", cell.node)
+    cpat = [x for x in cpat if "cp" in U(x[0].targets[0]).lower()] or cpat
+    ctx.judge(bool(cpat) and cpat[0][1]["M_a"] == "latency_cp", bool(cpat), "R4",
               "the CP column shows latency_cp of the path's lines", cell.where(), "CP cell source changed", cell.qname, "cp cell")
